@@ -262,11 +262,28 @@ func dataKind(d *astits.DemuxerData) string {
 func muxWritePacket(p *astits.Packet) (out []byte, n int, err error, panicked string) {
 	buf := &bytes.Buffer{}
 	m := astits.NewMuxer(context.Background(), buf)
+	start := 0
+	if p != nil && p.Header.ContinuityCounter%2 == 1 {
+		// a Muxer that has already written tables, a PES and another packet: what WritePacket emits may not depend on that
+		m.AddElementaryStream(astits.PMTElementaryStream{ElementaryPID: 0x1ab0, StreamType: astits.StreamTypeMPEG2Audio})
+		m.SetPCRPID(0x1ab0)
+		m.WritePacket(&astits.Packet{Header: astits.PacketHeader{PID: 0x1ab1, HasPayload: true}, Payload: []byte{1, 2, 3}})
+		if p.Header.PID%2 == 0 {
+			m.WriteTables() // the last call before the packet is either a table emission or a PES
+		}
+		if p.Header.PID%2 == 1 || p.Header.PID%4 == 0 {
+			m.WriteData(&astits.MuxerData{PID: 0x1ab0, PES: &astits.PESData{Header: &astits.PESHeader{StreamID: 0xc0, OptionalHeader: &astits.PESOptionalHeader{MarkerBits: 2}}, Data: bytes.Repeat([]byte{0x5a}, 300+int(p.Header.PID%200))}})
+		}
+		if p.Header.PID%4 == 0 {
+			m.WriteTables()
+		}
+		start = buf.Len()
+	}
 	pp, v, st := mon.Guarded(func() { n, err = m.WritePacket(p) })
 	if pp {
 		panicked = fmt.Sprintf("%v\n%s", v, st)
 	}
-	return buf.Bytes(), n, err, panicked
+	return buf.Bytes()[start:], n, err, panicked
 }
 
 // LogTap is a logger handed to the Demuxer: it records what the library logs (errors it decides not to return).
